@@ -172,17 +172,95 @@ func pubOutput(p *ecdsa.PublicKey) string {
 
 // ---------------------------------------------------------------------------
 
+// paramsCopy marks the variants whose key objects name the SM2 curve not by sm2.P256() but by a copy
+// of its parameters under another pointer (a key that came through generic code): the sm2 package
+// then takes its math/big path. The group is the same, so is the rule: one 32-byte block, 0 < k < n.
+const paramsCopy = "/SM2ParamsCopy"
+
+var sm2ParamsCopy elliptic.Curve = func() *elliptic.CurveParams { p := *sm2.P256().Params(); return &p }()
+
+// sm2KeyOn builds the key object for d on the SM2 curve, named by sm2.P256() or by the parameter copy.
+func sm2KeyOn(d *big.Int, alias bool) *sm2.PrivateKey {
+	k, err := sm2Key(d)
+	if err != nil {
+		panic("c12 harness: " + err.Error())
+	}
+	if !alias {
+		return k
+	}
+	priv := new(sm2.PrivateKey) // the same key pair (an input of the case, like k itself) under the other curve name
+	priv.Curve = sm2ParamsCopy
+	priv.D = new(big.Int).Set(d)
+	priv.X, priv.Y = new(big.Int).Set(k.X), new(big.Int).Set(k.Y)
+	return priv
+}
+
+func isAlias(variant string) bool { return strings.Contains(variant, paramsCopy) }
+
+// base strips the markers of key / argument representation from a variant name.
+func base(variant string) string {
+	if i := strings.Index(variant, "/"); i >= 0 {
+		return variant[:i]
+	}
+	return variant
+}
+
+// argCurveNames: what the Curve field of a peer's *ecdsa.PublicKey handed to a key-exchange step may
+// carry. The coordinates are always a valid point of the SM2 curve; the step belongs to the object's
+// own curve whatever the argument says (the unchanged library never reads the field).
+var argCurveNames = []string{"sm2.P256()", "SM2-params-copy", "P-224", "P-256", "P-384", "P-521", "nil"}
+
+const raCurveMark = "/RA.Curve="
+
+func argCurve(name string) elliptic.Curve {
+	switch name {
+	case "sm2.P256()":
+		return sm2.P256()
+	case "SM2-params-copy":
+		return sm2ParamsCopy
+	case "P-224":
+		return elliptic.P224()
+	case "P-256":
+		return elliptic.P256()
+	case "P-384":
+		return elliptic.P384()
+	case "P-521":
+		return elliptic.P521()
+	case "nil":
+		return nil
+	}
+	panic("c12 harness: curve name " + name)
+}
+
+// argCurveOf is the Curve field a variant prescribes for the peer's point ("" -> the SM2 curve object).
+func argCurveOf(variant string) string {
+	if i := strings.Index(variant, raCurveMark); i >= 0 {
+		return variant[i+len(raCurveMark):]
+	}
+	return argCurveNames[0]
+}
+
+func respondVariants() []string {
+	out := []string{"RepondKeyExchange", "RepondKeyExchange(sig)", "RepondKeyExchange" + paramsCopy}
+	for i, n := range argCurveNames[1:] {
+		out = append(out, []string{"RepondKeyExchange", "RepondKeyExchange(sig)"}[i%2]+raCurveMark+n)
+	}
+	return out
+}
+
 func sm2Ops() []*op {
 	return []*op{
 		{name: "sm2.sign", rule: ruleSM2Nonce,
-			variants: []string{"SignASN1(hash)", "priv.Sign(SM2SignerOption)", "priv.SignWithSM2", "sm2.Sign->(r,s)", "sm2.SignWithSM2->(r,s)"},
-			prepare:  prepSM2Sign},
+			variants: []string{"SignASN1(hash)", "priv.Sign(SM2SignerOption)", "priv.SignWithSM2", "sm2.Sign->(r,s)", "sm2.SignWithSM2->(r,s)",
+				"SignASN1(hash)" + paramsCopy, "priv.SignWithSM2" + paramsCopy},
+			prepare: prepSM2Sign},
 		{name: "sm2.encrypt", rule: ruleSM2Nonce,
-			variants: []string{"Encrypt(nil)", "Encrypt(C1C2C3)", "Encrypt(compressed)", "Encrypt(hybrid)", "Encrypt(ASN1opts)", "EncryptASN1", "Encrypt(len<=2)"},
-			prepare:  prepSM2Encrypt},
+			variants: []string{"Encrypt(nil)", "Encrypt(C1C2C3)", "Encrypt(compressed)", "Encrypt(hybrid)", "Encrypt(ASN1opts)", "EncryptASN1", "Encrypt(len<=2)",
+				"Encrypt(nil)" + paramsCopy, "EncryptASN1" + paramsCopy},
+			prepare: prepSM2Encrypt},
 		{name: "sm2.genkey", rule: ruleSM2Key, variants: []string{"GenerateKey"}, prepare: prepSM2GenKey},
-		{name: "sm2.kx.init", rule: ruleSM2Nonce, variants: []string{"InitKeyExchange", "InitKeyExchange(sig)"}, prepare: prepSM2KxInit},
-		{name: "sm2.kx.respond", rule: ruleSM2Nonce, variants: []string{"RepondKeyExchange", "RepondKeyExchange(sig)"}, prepare: prepSM2KxRespond},
+		{name: "sm2.kx.init", rule: ruleSM2Nonce, variants: []string{"InitKeyExchange", "InitKeyExchange(sig)", "InitKeyExchange(sig)" + paramsCopy}, prepare: prepSM2KxInit},
+		{name: "sm2.kx.respond", rule: ruleSM2Nonce, variants: respondVariants(), prepare: prepSM2KxRespond},
 		{name: "ecdh.genkey", rule: ruleSM2KeyXor, variants: []string{"P256().GenerateKey"}, prepare: prepECDHGenKey},
 		{name: "sm2.sign.nistp256", rule: ruleNISTNonce,
 			variants: []string{"SignASN1(hash)", "sm2.Sign->(r,s)", "SignASN1(hash)" + curveParams, "sm2.Sign->(r,s)" + curveParams}, prepare: prepLegacySign},
@@ -228,15 +306,12 @@ func sm2SignCallOn(obj *sm2.PrivateKey, d *big.Int, hash, msg, uid []byte, varia
 	c.run = func(rnd io.Reader) (o outcome) {
 		priv := obj
 		if priv == nil {
-			var err error
-			if priv, err = sm2Key(d); err != nil {
-				panic("c12 harness: " + err.Error())
-			}
+			priv = sm2KeyOn(d, isAlias(variant))
 		}
 		var sig []byte
 		var rr, ss *big.Int
 		e := hash
-		switch variant {
+		switch base(variant) {
 		case "SignASN1(hash)":
 			sig, o.err = sm2.SignASN1(rnd, priv, hash, nil)
 		case "priv.Sign(SM2SignerOption)":
@@ -304,7 +379,7 @@ func prepSM2Encrypt(x *env, r *mon.Rand, variant string) *call {
 
 func prepSM2EncryptOn(obj *sm2.PrivateKey, d *big.Int, r *mon.Rand, variant string) *call {
 	n := []int{16, 17, 32, 33, 64, 100, 3}[r.Intn(7)]
-	if variant == "Encrypt(len<=2)" {
+	if base(variant) == "Encrypt(len<=2)" {
 		n = r.Range(1, 2)
 	}
 	return sm2EncryptCallOn(obj, d, r.Bytes(n), variant)
@@ -320,11 +395,9 @@ func sm2EncryptCallOn(obj *sm2.PrivateKey, d *big.Int, msg []byte, variant strin
 	c.run = func(rnd io.Reader) (o outcome) {
 		priv := obj
 		if priv == nil {
-			var err error
-			if priv, err = sm2Key(d); err != nil {
-				panic("c12 harness: " + err.Error())
-			}
+			priv = sm2KeyOn(d, isAlias(variant))
 		}
+		variant := base(variant)
 		var ct []byte
 		isASN1 := false
 		switch variant {
@@ -426,14 +499,15 @@ type kxParties struct {
 	uidOwn, uidPeer []byte
 	keyLen          int
 	sig             bool
+	alias           bool // both static keys name the SM2 curve by the parameter copy
 }
 
 func (p kxParties) String() string {
-	return fmt.Sprintf("dOwn=%064x dPeer=%064x uidOwn=%x uidPeer=%x keyLen=%d confirm=%v", p.dOwn, p.dPeer, p.uidOwn, p.uidPeer, p.keyLen, p.sig)
+	return fmt.Sprintf("dOwn=%064x dPeer=%064x uidOwn=%x uidPeer=%x keyLen=%d confirm=%v keys-name-curve-by-params-copy=%v", p.dOwn, p.dPeer, p.uidOwn, p.uidPeer, p.keyLen, p.sig, p.alias)
 }
 
 func newKxParties(r *mon.Rand, variant string) kxParties {
-	p := kxParties{dOwn: randScalar(r, sm2N), dPeer: randScalar(r, sm2N), keyLen: r.Range(1, 48), sig: strings.HasSuffix(variant, "(sig)")}
+	p := kxParties{dOwn: randScalar(r, sm2N), dPeer: randScalar(r, sm2N), keyLen: r.Range(1, 48), sig: strings.Contains(variant, "(sig)"), alias: isAlias(variant)}
 	if r.Bool() {
 		p.uidOwn, p.uidPeer = r.Bytes(r.Range(1, 16)), r.Bytes(r.Range(1, 16))
 	}
@@ -458,14 +532,8 @@ type sm2KxObj struct {
 // newSM2KxObj constructs the object; late: without peer key and identity, which are supplied by
 // SetPeerParameters (needPeer) only when a step needs them - InitKeyExchange does not.
 func newSM2KxObj(p kxParties, late bool) *sm2KxObj {
-	own, err := sm2Key(p.dOwn)
-	if err != nil {
-		panic("c12 harness: " + err.Error())
-	}
-	peer, err := sm2Key(p.dPeer)
-	if err != nil {
-		panic("c12 harness: " + err.Error())
-	}
+	own, peer := sm2KeyOn(p.dOwn, p.alias), sm2KeyOn(p.dPeer, p.alias)
+	var err error
 	ko := &sm2KxObj{p: p}
 	if late {
 		ko.latePeer = &peer.PublicKey
@@ -488,18 +556,22 @@ func (ko *sm2KxObj) needPeer() {
 	}
 }
 
-func ecPub(p ec.Point) *ecdsa.PublicKey {
-	return &ecdsa.PublicKey{Curve: sm2.P256(), X: new(big.Int).Set(p.X), Y: new(big.Int).Set(p.Y)}
+func ecPub(p ec.Point) *ecdsa.PublicKey { return ecPubOn(p, sm2.P256()) }
+
+// ecPubOn is the point p of the SM2 curve in a struct whose Curve field says c.
+func ecPubOn(p ec.Point, c elliptic.Curve) *ecdsa.PublicKey {
+	return &ecdsa.PublicKey{Curve: c, X: new(big.Int).Set(p.X), Y: new(big.Int).Set(p.Y)}
 }
 
 func prepSM2KxInit(x *env, r *mon.Rand, variant string) *call {
-	return sm2KxInitCall(nil, newKxParties(r, variant), randScalar(r, sm2N))
+	return sm2KxInitCall(nil, newKxParties(r, variant), randScalar(r, sm2N), argCurveNames[r.Intn(len(argCurveNames))])
 }
 
 // sm2KxInitCall is InitKeyExchange on the kept object obj (nil: a new object per run). rPeer is
 // the ephemeral scalar of the honest responder the follow-up oracle plays.
-func sm2KxInitCall(obj *sm2KxObj, p kxParties, rPeer *big.Int) *call {
-	c := &call{inputs: p.String()}
+// rbCurve is what the Curve field of the responder's point handed to ConfirmResponder says.
+func sm2KxInitCall(obj *sm2KxObj, p kxParties, rPeer *big.Int, rbCurve string) *call {
+	c := &call{inputs: fmt.Sprintf("%s (follow-up: RB.Curve=%s)", p, rbCurve)}
 	c.run = func(rnd io.Reader) (o outcome) {
 		ko := obj
 		if ko == nil {
@@ -527,7 +599,7 @@ func sm2KxInitCall(obj *sm2KxObj, p kxParties, rPeer *big.Int) *call {
 				sB = ref.SB
 			}
 			ko.needPeer()
-			key, sA, err := ko.ke.ConfirmResponder(ecPub(ref.EB), sB)
+			key, sA, err := ko.ke.ConfirmResponder(ecPubOn(ref.EB, argCurve(rbCurve)), sB)
 			if err != nil {
 				if opt.lenient && len(key) == 0 && len(sA) == 0 {
 					return "", err
@@ -548,12 +620,13 @@ func sm2KxInitCall(obj *sm2KxObj, p kxParties, rPeer *big.Int) *call {
 }
 
 func prepSM2KxRespond(x *env, r *mon.Rand, variant string) *call {
-	return sm2KxRespondCall(nil, newKxParties(r, variant), randScalar(r, sm2N))
+	return sm2KxRespondCall(nil, newKxParties(r, variant), randScalar(r, sm2N), argCurveOf(variant))
 }
 
 // sm2KxRespondCall is RepondKeyExchange(RA = [rPeer]G) on the kept object obj (nil: a new one per run).
-func sm2KxRespondCall(obj *sm2KxObj, p kxParties, rPeer *big.Int) *call {
-	c := &call{inputs: fmt.Sprintf("%s RA=[%064x]G", p, rPeer)}
+// raCurve is what the Curve field of RA says.
+func sm2KxRespondCall(obj *sm2KxObj, p kxParties, rPeer *big.Int, raCurve string) *call {
+	c := &call{inputs: fmt.Sprintf("%s RA=[%064x]G RA.Curve=%s", p, rPeer, raCurve)}
 	rA := ec.BaseMul(rPeer) // the initiator's ephemeral public key
 	c.run = func(rnd io.Reader) (o outcome) {
 		ko := obj
@@ -561,7 +634,7 @@ func sm2KxRespondCall(obj *sm2KxObj, p kxParties, rPeer *big.Int) *call {
 			ko = newSM2KxObj(p, false)
 		}
 		ko.needPeer()
-		R, s2, err := ko.ke.RepondKeyExchange(rnd, ecPub(rA))
+		R, s2, err := ko.ke.RepondKeyExchange(rnd, ecPubOn(rA, argCurve(raCurve)))
 		o.err = err
 		o.output = pubOutput(R)
 		if len(s2) > 0 {
